@@ -47,6 +47,10 @@ def run(res, replay=None):
         # explicit start values whose keys are written in a different order than the bounds (different boxes)
         cases.append({'n': 3, 'times': [0.0, 0.5], 'two_params': True, 'truth': [3.0, 0.75], 'bounds': [[2.0, 8.0], [0.25, 1.5]],
                       'n_runs': 1, 'seed': 11, 'loss': 'l2', 'x0': [4.0, 1.0], 'x0_reversed': True, 'cache': True})
+        # the same with several runs: a SAMPLED run (drawn in the order of the bounds) may win against the explicit start
+        for sd in ((1, 2, 3) if res.tier == 'quick' else range(1, 13)):
+            cases.append({'n': 3, 'times': [0.0, 0.5], 'two_params': True, 'truth': [3.0, 0.75], 'bounds': [[2.0, 8.0], [0.25, 1.5]],
+                          'n_runs': 3, 'seed': sd, 'loss': 'l2', 'x0': [4.0, 1.0], 'x0_reversed': True, 'cache': True})
     outs = C.run_impl_parallel('inference.py', [{'cases': [c]} for c in cases], timeout=2400)
     bodies, keep = [], []
     for c, o in zip(cases, outs):
